@@ -910,4 +910,193 @@ theorem c05_single_fault_nested (hs : cfg.slicePrepend = true) (hr : cfg.recordK
 
 end nested
 
+/-! ### the hypotheses are inhabited: a HETEROGENEOUS object `{a: String(), b: Int()}` and a corrupted input -/
+
+/-- leaves: schema 1 = a string schema, schema 2 = an int schema, both reporting `invalid_type` at their own root. -/
+def exEnv : Env := fun m x =>
+  match m, x with
+  | 1, .atom .str _ => .ok x
+  | 2, .atom .int _ => .ok x
+  | _, _ => .err (mk .invalidType []) []
+
+/-- schema 0 = `Object{a: String(), b: Int()}` (field names interned: a = 1, b = 2); schema 5 = `Object{p: <schema 0>}` (p = 3). -/
+def exDefs : Mid → Def := fun id =>
+  if id = 0 then .node (.object {} [{ name := 1, m := 1 }, { name := 2, m := 2 }] .strip none {} [])
+  else if id = 5 then .node (.object {} [{ name := 3, m := 0 }] .strip none {} [])
+  else .leaf
+
+/-- `{a: "x", b: "oops"}`: the valid `{a: "x", b: 7}` corrupted at `b`. -/
+def exInput : V := .map .str .any (some [(.atom .str 1, .atom .str 10), (.atom .str 2, .atom .str 11)])
+
+theorem exEnv_root (m : Mid) (x : V) (c : Issue) (hc : c ∈ errs exEnv m x) : c.path = [] := by
+  have h : exEnv m x = .ok x ∨ exEnv m x = .err (mk .invalidType []) [] := by
+    unfold exEnv; split <;> simp
+  unfold errs at hc
+  rcases h with h | h <;> rw [h] at hc
+  · cases hc
+  · simp only [List.mem_singleton] at hc; subst hc; rfl
+
+theorem exOff : OffFault {} exDefs exEnv (fun _ v => v) (RootOnly {} exDefs exEnv (fun _ v => v)) 1 0 exInput [.key 2] := by
+  simp only [OffFault, exDefs, ↓reduceIte]
+  refine ⟨?_, ?_, ?_, ?_, ?_, ?_⟩
+  · intro s m x ha hs
+    simp only [Asked, exInput, extractObject] at ha
+    obtain ⟨es, he, h | h⟩ := ha
+    · cases he
+      obtain ⟨f, hf, hk, rfl, rfl⟩ := h
+      simp only [List.mem_cons, List.not_mem_nil, or_false] at hf
+      rcases hf with rfl | rfl
+      · simp [lookupKey, keyId] at hk; subst hk; rfl
+      · exact absurd rfl hs
+    · obtain ⟨k, _, _, _, hn, _⟩ := h; cases hn
+  · intro kk m h; simp [AskedKey] at h
+  · intro s h
+    simp only [OwnFault, exInput, extractObject] at h
+    obtain ⟨es, he, f, hf, rfl, h⟩ := h
+    cases he
+    simp only [List.mem_cons, List.not_mem_nil, or_false] at hf
+    rcases hf with rfl | rfl
+    · simp [lookupKey, keyId, V.isNil] at h
+    · rfl
+  · intro m x ha
+    simp only [Asked, exInput, extractObject] at ha
+    obtain ⟨es, he, h | h⟩ := ha
+    · cases he
+      obtain ⟨f, hf, hk, hs, rfl⟩ := h
+      simp only [List.mem_cons, List.not_mem_nil, or_false] at hf
+      rcases hf with rfl | rfl
+      · simp at hs
+      · simp [lookupKey, keyId] at hk; subst hk
+        intro c hc
+        simp [errs, parseF, exEnv, mk] at hc; subst hc; rfl
+    · obtain ⟨k, _, _, _, hn, _⟩ := h; cases hn
+  · intro kk m h; simp [AskedKey] at h
+  · intro m h; simp [AskedSame] at h
+
+/-- … and the theorem applied to it: the only path reported is the location `[b]` (the reported paths, computed: `[[b]]`). -/
+example : ∀ i ∈ errs (parseF {} exDefs exEnv (fun _ v => v) 1) 0 exInput, i.path <+: [.key 2] :=
+  c05_single_fault_nested {} exDefs exEnv (fun _ v => v) rfl rfl
+    exEnv_root 1 0 exInput [.key 2] exOff
+
+example : (errs (parseF {} exDefs exEnv (fun _ v => v) 1) 0 exInput).map (·.path) = [[.key 2]] := by decide
+
+
+/-- two levels: `{p: {a: "x", b: "oops"}}` under `Object{p: Object{a: String(), b: Int()}}`, the fault at `[p, b]`. -/
+def exInput2 : V := .map .str .any (some [(.atom .str 3, exInput)])
+
+theorem exOff2 : OffFault {} exDefs exEnv (fun _ v => v) (RootOnly {} exDefs exEnv (fun _ v => v)) 2 5 exInput2
+    [.key 3, .key 2] := by
+  have h5 : exDefs 5 = .node (.object {} [{ name := 3, m := 0 }] .strip none {} []) := rfl
+  simp only [OffFault, h5]
+  refine ⟨?_, ?_, ?_, ?_, ?_, ?_⟩
+  · intro s m x ha hs
+    simp only [Asked, exInput2, extractObject] at ha
+    obtain ⟨es, he, h | h⟩ := ha
+    · cases he
+      obtain ⟨f, hf, hk, rfl, rfl⟩ := h
+      simp only [List.mem_cons, List.not_mem_nil, or_false] at hf
+      subst hf
+      exact absurd rfl hs
+    · obtain ⟨k, _, _, _, hn, _⟩ := h; cases hn
+  · intro kk m h; simp [AskedKey] at h
+  · intro s h
+    simp only [OwnFault, exInput2, extractObject] at h
+    obtain ⟨es, he, f, hf, rfl, h⟩ := h
+    cases he
+    simp only [List.mem_cons, List.not_mem_nil, or_false] at hf
+    subst hf
+    rfl
+  · intro m x ha
+    simp only [Asked, exInput2, extractObject] at ha
+    obtain ⟨es, he, h | h⟩ := ha
+    · cases he
+      obtain ⟨f, hf, hk, _, rfl⟩ := h
+      simp only [List.mem_cons, List.not_mem_nil, or_false] at hf
+      subst hf
+      simp [lookupKey, keyId] at hk; subst hk
+      exact exOff
+    · obtain ⟨k, _, _, _, hn, _⟩ := h; cases hn
+  · intro kk m h; simp [AskedKey] at h
+  · intro m h; simp [AskedSame] at h
+
+example : ∀ i ∈ errs (parseF {} exDefs exEnv (fun _ v => v) 2) 5 exInput2, i.path <+: [.key 3, .key 2] :=
+  c05_single_fault_nested {} exDefs exEnv (fun _ v => v) rfl rfl exEnv_root 2 5 exInput2 [.key 3, .key 2] exOff2
+
+example : (errs (parseF {} exDefs exEnv (fun _ v => v) 2) 5 exInput2).map (·.path) = [[.key 3, .key 2]] := by decide
+
+/-- resolution on the same case: the side conditions hold, the reported path `[b]` reaches the planted value. -/
+example : ∀ c ∈ errs (parseF {} exDefs exEnv (fun _ v => v) 1) 0 exInput, RoPk exInput c :=
+  c05_resolves_nested {} exDefs exEnv (fun _ v => v) rfl rfl
+    (fun m x c hc => ropk_root (exEnv_root m x c hc)) 1 0 exInput
+    (by simp only [VisitOK, exDefs, ↓reduceIte]
+        exact ⟨trivial, fun kk m h => by simp [AskedKey] at h, fun _ _ _ _ => trivial, fun m h => by simp [AskedSame] at h⟩)
+
+/-- **witness for the exclusion `SetOnMap`**: `Set[string](String().Min(3)).Parse([]string{"ab"})` — a Set given a SLICE —
+    files the element's issue under the element's VALUE (`["ab"]`), which is no location of the slice (its locations are
+    indices): the path does not resolve, and the issue is no missing-key issue. -/
+theorem c05_set_on_slice_false :
+    let r := run {} (fun _ _ => .err (mk .tooSmall []) []) (.set {} .str 0 []) (.slice .str (some [.atom .str 5]))
+    r.issues.map (fun i => (i.path, i.code)) = [([.key 5], .tooSmall)]
+      ∧ resolve (.slice .str (some [.atom .str 5])) [.key 5] = none := by decide
+
+/-- the missing-key escape is real and restricted: `Object{a: String()}.Parse({})` reports `invalid_type` at `[a]`, a key
+    the input lacks (`NoKey`); the same path on an issue of any other code would not satisfy `RoPk`. -/
+example : RoPk (.map .str .any (some [])) (mk .invalidType [.key 1]) :=
+  Or.inr ⟨rfl, [], 1, _, rfl, .here _, rfl, rfl⟩
+
+example : ¬ RoPk (.map .str .any (some [])) (mk .tooSmall [.key 1]) := by
+  rintro (⟨w, hw⟩ | ⟨hc, _⟩)
+  · cases hw with
+    | step hc _ => rcases hc with hc | hc <;> simp [ChildD] at hc
+  · cases hc
+
+/-! ### completeness for map and set (audit M3): ALL issues of an asked value / element, in order, behind its key -/
+
+theorem mapEntries_block (env : Env) (km vm : Option Mid) (es : List (V × V)) (k x : V) (m : Mid)
+    (hm : (k, x) ∈ es) (hv : vm = some m) :
+    ((errs env m x).map (prepend k.seg)).Sublist (mapEntries env km vm es) := by
+  induction es with
+  | nil => cases hm
+  | cons e es ih =>
+    obtain ⟨k', x'⟩ := e
+    simp only [mapEntries]
+    rcases List.mem_cons.1 hm with h | h
+    · cases h
+      subst hv
+      exact (List.sublist_append_right _ _).trans (List.sublist_append_left _ _)
+    · exact (ih h).trans (List.sublist_append_right _ _)
+
+/-- **C05, map, every issue of a value**: when the size checks hold, ALL issues the value schema reports for the value
+    under key `k` appear among the map's issues, in order, each with path `[k] ++ its own path`. -/
+theorem c05_map_all_issues (cfg : Cfg) (env : Env) (md : Mods) (km : Option Mid) (m : Mid) (cs : List SizeCk)
+    (v : V) (es : List (V × V)) (hv : v.isNilLike = false) (hx : extractMap v = some es)
+    (hsz : sizeIssues cs es.length = []) (k x : V) (hm : (k, x) ∈ es) :
+    ((errs env m x).map (fun c => k.seg :: c.path)).Sublist
+      ((run cfg env (.map md km (some m) cs) v).issues.map (·.path)) := by
+  have hb := mapEntries_block env km (some m) es k x m hm rfl
+  simp only [run, engine, hv, Bool.false_eq_true, ↓reduceIte, hx, validateMap, hsz, ofIssues_issues]
+  rw [← prepend_paths]
+  exact hb.map (·.path)
+
+theorem setElems_block (env : Env) (m : Mid) (xs : List V) (x : V) (hm : x ∈ xs) :
+    ((errs env m x).map (prepend x.seg)).Sublist (setElems env m xs) := by
+  induction xs with
+  | nil => cases hm
+  | cons y ys ih =>
+    simp only [setElems]
+    rcases List.mem_cons.1 hm with h | h
+    · subst h; exact List.sublist_append_left _ _
+    · exact (ih h).trans (List.sublist_append_right _ _)
+
+/-- **C05, set, every issue of an element** (filed under the element's own key). -/
+theorem c05_set_all_issues (cfg : Cfg) (env : Env) (md : Mods) (t : Ty) (m : Mid) (cs : List SizeCk)
+    (v : V) (xs : List V) (hv : v.isNilLike = false) (hx : extractSet t v = some xs)
+    (hsz : sizeIssues cs xs.length = []) (x : V) (hm : x ∈ xs) :
+    ((errs env m x).map (fun c => x.seg :: c.path)).Sublist
+      ((run cfg env (.set md t m cs) v).issues.map (·.path)) := by
+  have hb := setElems_block env m xs x hm
+  simp only [run, engine, hv, Bool.false_eq_true, ↓reduceIte, hx, validateSet, hsz, ofIssues_issues]
+  rw [← prepend_paths]
+  exact hb.map (·.path)
+
 end Gozod.C05
